@@ -73,7 +73,11 @@ def term(v):
 
 
 def _real(t):
-    return z3.ToReal(t) if t.sort() == z3.IntSort() else t
+    if t.sort() == z3.IntSort():
+        if z3.is_int_value(t):
+            return z3.RealVal(t.as_long())  # keep pure-real queries free of Int terms
+        return z3.ToReal(t)
+    return t
 
 
 def _wrap(t):
@@ -99,7 +103,7 @@ def _arith(a, b, op):
 
 
 class _Sym:
-    __array_priority__ = 1000
+    # no __array_priority__: ndarray binops must broadcast over us, not defer to us
     __slots__ = ("t",)
 
     def __init__(self, t):
@@ -152,6 +156,9 @@ class _SymNum(_Sym):
         return self
 
     def __abs__(self):
+        e = _CUR
+        if e is not None and e.fork_abs:
+            return self if e.decide(self.t >= 0) else -self
         return _wrap(z3.If(self.t >= 0, self.t, -self.t))
 
     def __truediv__(self, o):
@@ -614,18 +621,20 @@ class Engine:
     path condition and are recomputed identically on re-execution), and the True side is
     always explored first, so "has an unexplored alternative" <=> the entry is True."""
 
-    def __init__(self, timeout_ms=30000, max_paths=200000, name=""):
+    def __init__(self, timeout_ms=30000, max_paths=200000, name="", logic=None):
+        self.logic = logic
         self.timeout_ms = timeout_ms
         self.max_paths = max_paths
         self.name = name
         self.stats = Stats()
         self.cex = []
         self.stop_on_cex = True
+        self.fork_abs = False  # abs() as an If-term (False) or as a fork (True: simpler NRA queries)
         self._reset_path([])
 
     # -- path state
     def _reset_path(self, prefix):
-        self.solver = z3.Solver()
+        self.solver = z3.SolverFor(self.logic) if self.logic else z3.Solver()
         self.solver.set("timeout", self.timeout_ms)
         self.prefix = list(prefix)
         self.trail = []
